@@ -1,6 +1,7 @@
 package main
 
 import (
+	"encoding/json"
 	"bytes"
 	"errors"
 	"fmt"
@@ -65,7 +66,7 @@ type saveObs struct {
 
 // c20Run builds a package of the chosen sources in 1-2 directories, optionally edits files, and
 // saves it with a resolver failing while file failFile is printed (0 = never).
-func c20Run(pick []int, dirs int, edited []bool, failFile int) saveObs {
+func c20Run(pick []int, dirs int, edited []int, failFile int) saveObs {
 	o := saveObs{Files: len(pick), FailFile: failFile}
 	root, err := os.MkdirTemp("", "dstv-save-")
 	if err != nil {
@@ -93,7 +94,11 @@ func c20Run(pick []int, dirs int, edited []bool, failFile int) saveObs {
 			o.Msg = err.Error()
 			return o
 		}
-		if edited[i] {
+		if edited[i] == 2 {
+			// an edit that makes the file shorter: the last declaration goes (and with it, possibly, the last use of an import)
+			df.Decls = df.Decls[:len(df.Decls)-1]
+		}
+		if edited[i] == 1 {
 			df.Decls = append(df.Decls, &dst.GenDecl{Tok: token.VAR, Specs: []dst.Spec{&dst.ValueSpec{
 				Names: []*dst.Ident{dst.NewIdent(fmt.Sprintf("Added%d", i))}, Values: []dst.Expr{&dst.CallExpr{Fun: &dst.Ident{Name: "Join", Path: "path/filepath"}, Args: []dst.Expr{&dst.BasicLit{Kind: token.STRING, Value: "\"x\""}}}}}}})
 		}
@@ -156,7 +161,7 @@ func c20Run(pick []int, dirs int, edited []bool, failFile int) saveObs {
 	o.Wrapped = serr != nil && errors.Is(serr, sentinel)
 	after := snapshotDir(root)
 	for i, p := range paths {
-		unedited := !edited[i]
+		unedited := edited[i] == 0
 		written := touched(p)
 		o.Written = append(o.Written, written)
 		o.Own = append(o.Own, after[p] == want[i])
@@ -185,7 +190,7 @@ func c20Run(pick []int, dirs int, edited []bool, failFile int) saveObs {
 
 func checkC20(c *Ctx) {
 	c.Assume("decorator.Load cannot run offline (go/packages); the Package value is built by hand around a packages.Package with only PkgPath set, which is all save() reads")
-	for _, v := range []string{"code", "continue-after-error", "wrong-path"} {
+	for _, v := range []string{"code", "continue-after-error", "wrong-path", "no-truncate"} {
 		r, err := RunTLC(TLCRun{Module: "Save", Workers: 2, Timeout: 5 * time.Minute, Cfg: fmt.Sprintf("CONSTANTS NFiles = 4 Variant = \"%s\"\nINIT Init\nNEXT Next\nINVARIANTS OnlyRecordedPaths OwnContents StopAtFirstError AllWrittenOnSuccess\nCHECK_DEADLOCK FALSE\n", v)})
 		if err != nil || (v == "code" && !r.OK()) || (v != "code" && r.Violated == "") {
 			c.Infra("TLC (Save) unexpected result for variant " + v + ": " + errText(r, err))
@@ -195,10 +200,11 @@ func checkC20(c *Ctx) {
 			c.TLC(r)
 		}
 	}
-	c.Set("model", "Save.tla: 4 files x failure at any file; continue-after-error and wrong-path variants rejected")
+	c.Set("model", "Save.tla: 4 files x failure at any file; continue-after-error, wrong-path and no-truncate variants rejected")
 	r := rand.New(rand.NewSource(c.Seed))
 	tr := &ndjson{}
 	var keys []string
+	var replays []obj
 	n := 0
 	// all packages of 1..3 files (ordered picks of the sources) x directories x edited masks x failure position
 	for nf := 1; nf <= 3; nf++ {
@@ -219,13 +225,17 @@ func checkC20(c *Ctx) {
 				continue
 			}
 			for dirs := 1; dirs <= 2 && dirs <= nf; dirs++ {
-				for mask := 0; mask < 1<<nf; mask++ {
-					if c.Quick() && nf >= 2 && r.Intn(2) != 0 {
+				nm := 1
+				for i := 0; i < nf; i++ {
+					nm *= 3
+				}
+				for mask := 0; mask < nm; mask++ {
+					if c.Quick() && nf >= 2 && r.Intn(4) != 0 {
 						continue
 					}
-					edited := make([]bool, nf)
-					for i := range edited {
-						edited[i] = mask&(1<<i) != 0
+					edited := make([]int, nf) // 0 unedited, 1 a declaration added, 2 the last declaration removed
+					for i, m := 0, mask; i < nf; i, m = i+1, m/3 {
+						edited[i] = m % 3
 					}
 					for fail := 0; fail <= nf; fail++ {
 						o := c20Run(pick, dirs, edited, fail)
@@ -236,10 +246,11 @@ func checkC20(c *Ctx) {
 						}
 						c.Eval(key, fail > 0 || mask != 0)
 						if o.Panic {
-							c.Fail(Finding{Sig: "save-panics", Input: key, What: o.Msg, Replay: obj{"kind": "c20", "key": key}})
+							c.Fail(Finding{Sig: "save-panics", Input: key, What: o.Msg, Replay: obj{"kind": "c20", "key": key, "pick": pick, "dirs": dirs, "edited": edited, "fail": fail}})
 						}
 						tr.Add(o)
 						keys = append(keys, key)
+						replays = append(replays, obj{"kind": "c20", "key": key, "pick": pick, "dirs": dirs, "edited": edited, "fail": fail})
 						n++
 						if n%97 == 0 {
 							c.Sample(obj{"case": key, "observed": o})
@@ -252,10 +263,44 @@ func checkC20(c *Ctx) {
 	c.Traces(int64(tr.Len()))
 	var items []traceItem
 	for j, ln := range bytes.Split(bytes.TrimRight(tr.Bytes(), "\n"), []byte("\n")) {
-		items = append(items, traceItem{Key: keys[j], Trace: append(append([]byte{}, ln...), '\n'), Events: 1, Replay: obj{"kind": "c20", "key": keys[j]}})
+		items = append(items, traceItem{Key: keys[j], Trace: append(append([]byte{}, ln...), '\n'), Events: 1, Replay: replays[j]})
 	}
 	validateTraces(c, "SaveTrace", saveTraceCfg, items, 3000, false, func(it traceItem, res *TLCResult) {
 		c.Fail(Finding{Sig: "save-" + res.Violated, Input: it.Key, What: fmt.Sprintf("predicate %s of SaveTrace.tla fails: %s (%s)", res.Violated, truncate(string(it.Trace), 400), it.Key), Replay: it.Replay})
 	})
-	c.Set("rule", "case = one package (1-3 files from four sources, 1-2 directories, each file edited or not) saved with a resolver failing while file i is printed (i = 0..n); non-trivial = a failure or an edit; distinct by package + edit mask + failure position")
+	c.Set("rule", "case = one package (1-3 files from four sources, 1-2 directories, each file unedited, grown or shrunk by an edit) saved with a resolver failing while file i is printed (i = 0..n); non-trivial = a failure or an edit; distinct by package + edit mask + failure position")
+}
+
+func init() {
+	replayers["c20"] = func(raw json.RawMessage) string {
+		var r struct {
+			Pick, Edited []int
+			Dirs, Fail   int
+		}
+		if json.Unmarshal(raw, &r) != nil || len(r.Pick) == 0 || len(r.Edited) != len(r.Pick) {
+			return ""
+		}
+		o := c20Run(r.Pick, r.Dirs, r.Edited, r.Fail)
+		if o.Panic {
+			return "SaveWithResolver panicked: " + o.Msg
+		}
+		for i := range o.Written {
+			if o.Written[i] && !o.Own[i] {
+				return fmt.Sprintf("file %d on disk is not the import-managed print of its decorated file", i+1)
+			}
+			if o.Written[i] && o.Unedited[i] && !o.Identical[i] {
+				return fmt.Sprintf("unedited file %d changed on disk", i+1)
+			}
+			if o.FailFile != 0 && i+1 >= o.FailFile && o.Written[i] {
+				return fmt.Sprintf("file %d written after the resolver failed at file %d", i+1, o.FailFile)
+			}
+		}
+		if o.OthersTouched {
+			return "a path that was not loaded was written"
+		}
+		if o.FailFile != 0 && (!o.Err || !o.Wrapped) {
+			return "the resolver failure was not returned"
+		}
+		return ""
+	}
 }
